@@ -16,6 +16,8 @@ func (f *FileEnt) IsDir() bool {
 }
 
 func (ref *FileEnt) Qid() p9p.Qid {
+	ref.Lock()
+	defer ref.Unlock()
 	return ref.Info.Qid
 }
 func (h FileHandle) Qid() p9p.Qid {
@@ -45,17 +47,18 @@ func (ref *FileEnt) OpenDir(ctx context.Context,
 
 	dirs := []p9p.Dir{dotdot}
 	for _, file := range ref.children {
-		dirs = append(dirs, file.Info)
+		info, _ := file.Stat(ctx)
+		dirs = append(dirs, info)
 	}
 	return (&dirList{dirs, false}).Next, nil
 }
 func (h FileHandle) OpenDir(ctx context.Context) (p9p.ReadNext, error) {
-	var dotdot p9p.Dir
-	if len(h.parents) == 0 {
-		dotdot = withName("..", h.ent.Info)
-	} else {
-		dotdot = withName("..", h.parents[len(h.parents)-1].Info)
+	up := h.ent
+	if len(h.parents) > 0 {
+		up = h.parents[len(h.parents)-1]
 	}
+	info, _ := up.Stat(ctx)
+	dotdot := withName("..", info)
 
 	return h.ent.OpenDir(ctx, dotdot)
 }
@@ -98,11 +101,13 @@ func (ref *FileEnt) Walk(names ...string) []*FileEnt {
 	var i int
 
 	for i = 0; i < len(names); i++ {
-		var found bool
-		ref, found = ref.children[names[i]]
+		ref.Lock()
+		next, found := ref.children[names[i]]
+		ref.Unlock()
 		if !found {
 			break
 		}
+		ref = next
 		ans[i] = ref
 	}
 	return ans[:i]
@@ -201,7 +206,8 @@ func (h FileHandle) Walk(ctx context.Context, names ...string) ([]p9p.Qid, p9p.D
 
 	qids = make([]p9p.Qid, len(ans))
 	for i, a := range ans {
-		qids[i] = a.Info.Qid
+		info, _ := a.Stat(ctx)
+		qids[i] = info.Qid
 	}
 
 	return qids, rh, nil
@@ -241,6 +247,8 @@ func (h FileHandle) createImpl(fname string, mode uint32) (FileHandle, error) {
 }
 
 func (ref *FileEnt) Stat(ctx context.Context) (p9p.Dir, error) {
+	ref.Lock()
+	defer ref.Unlock()
 	return ref.Info, nil
 }
 func (h FileHandle) Stat(ctx context.Context) (p9p.Dir, error) {
@@ -248,6 +256,8 @@ func (h FileHandle) Stat(ctx context.Context) (p9p.Dir, error) {
 }
 
 func (ref *FileEnt) WStat(ctx context.Context, dir p9p.Dir) error {
+	ref.Lock()
+	defer ref.Unlock()
 	if dir.Mode != ^uint32(0) {
 		ref.Info.Mode = dir.Mode
 	}
